@@ -69,7 +69,9 @@ func (calc *RewardCalculator) Calculate() (amt *balance.Amount, err error) {
 	// set cached amount if available
 	amt = balance.NewAmount(0)
 	cycleNo, firstInCycle, _ := calc.getCycleNo()
-	if calc.cached.available() {
+	// the cached amount belongs to the cycle it was calculated in: a node restarted within a cycle has no
+	// cache and recalculates, so a cache of an earlier cycle must not be used either
+	if calc.cached.available() && calc.cached.cycleNo == cycleNo {
 		*amt = *calc.cached.amount
 		// return if all reward years already passed
 		if calc.cached.burnedout {
